@@ -141,12 +141,31 @@ def r93(ctx, fx):
             if c[0] == "Eq" and any(isinstance(x, tuple) and x[:2] == ("v", "mos::commands::build::OutputFormat::Prg") for x in c[1:]):
                 # vec![Bank::prg_header(banks[0].range().start)] then extend(banks)
                 hdr = [x for x, p in lib.hir_calls(n["then"], "Bank::prg_header")]
+                hdr_for = [x for x, p in lib.hir_calls(n["then"], "Bank::prg_header_for")]
                 ext = [x for x, p in lib.hir_calls(n["then"]) if x.get("k") == "mcall" and x.get("name") == "extend"]
                 if hdr and ext:
                     a = lib.hdesc(hdr[0]["args"][0])
                     first = a[:2] == ("f", "start") and "('c', 0)" in repr(a) and "Bank::range" in repr(a)
                     order = hdr[0].get("ln", 0) <= ext[0].get("ln", 0) and lib.hdesc(ext[0]["recv"])[0] == "v"
                     ok = first and order
+                elif hdr_for and ext:
+                    # Bank::prg_header_for(&banks[0]): the helper takes the start (and the file name) of the bank it is given
+                    a = repr(lib.hdesc(hdr_for[0]["args"][0]))
+                    first = "('c', 0)" in a and "banks" in a
+                    order = hdr_for[0].get("ln", 0) <= ext[0].get("ln", 0) and lib.hdesc(ext[0]["recv"])[0] == "v"
+                    hf = fx.fn("mos_core::io::binary_writer::Bank::prg_header_for")
+                    helper_ok = False
+                    if hf is not None:
+                        inner = [x for x, p in lib.hir_calls(hf.hir["body"], "Bank::prg_header")]
+                        copies_name = any(x.get("k") == "assign" and lib.hdesc(x["l"])[:2] == ("f", "filename") and "'filename'" in repr(lib.hdesc(x["r"]))
+                                          for x in lib.hwalk(hf.hir["body"]))
+                        helper_ok = bool(inner) and "Bank::range" in repr(lib.hdesc(inner[0]["args"][0])) and \
+                            lib.hdesc(inner[0]["args"][0])[:2] == ("f", "start") and copies_name
+                        ctx.inst(rid, hf.path + "|same-file", sample={"copies_the_banks_filename": copies_name})
+                        if not copies_name:
+                            ctx.finding(rid, hf.path + "|same-file", "the prg header is not written to the file of the bank it precedes: a bank with a `filename` gets a "
+                                        "file without load address while the header lands alone in the default output file", hf.where)
+                    ok = first and order and helper_ok
     if not ok:
         ctx.finding(rid, k, "for prg output the two-byte header must be built from the start of the first bank and placed before all banks", bc.where)
     of = fx.fn("mos::commands::build::BuildOptions::output_format")
@@ -277,6 +296,8 @@ def r95(ctx, fx):
             continue   # the `.define` arm builds the options from scratch
 
         sites = []
+        fresh_locals = {n_["pat"]["name"] for n_ in lib.hwalk(f.hir["body"]) if n_.get("k") == "let" and n_["pat"].get("k") == "bind" and "init" in n_ and
+                        lib.strip(n_["init"]).get("k") == "call"}
 
         def rec(x, conds):
             if isinstance(x, list):
@@ -287,6 +308,10 @@ def r95(ctx, fx):
                 return
             if x.get("k") == "assign":
                 d = lib.hdesc(x["l"])
+                # the options of a bank that this very function has just constructed (a local initialised by a call) are not configured by anybody
+                root = [t for t in lib.subterms(d) if isinstance(t, tuple) and len(t) == 2 and t[0] == "v"]
+                if root and root[-1][1] in fresh_locals:
+                    return
                 if d[0] == "f" and ("options_mut" in repr(d) or "SegmentOptions" in (lib.strip(lib.strip(x["l"]).get("a", {})).get("ty") or "") or
                                     "BankOptions" in (lib.strip(lib.strip(x["l"]).get("a", {})).get("ty") or "")):
                     sites.append((x, d[1], list(conds)))
